@@ -6,7 +6,7 @@ sys.path.insert(0, os.path.join(ROOT, "harness"))
 import registry
 
 NOTE = ("Trusted base: Lean 4.33 kernel; axioms propext, Classical.choice, Quot.sound only (audited each run, no sorry/native_decide/own axioms); "
-        "Lean code generator for the compiled drivers; harness/gen_tables.py (reflection + AST translator) and the differential correspondence harness "
+        "Lean code generator for the compiled drivers; harness/gen_tables.py + harness/gen_formulas.py (reflection + AST translators: declarative tables, and the bodies of the arithmetic getters / predicates / constructors) and the differential correspondence harness "
         "(sampling: model = code is validated, not proved); CPython/decimal/datetime/heapq/AVL/ezodf modelled, not verified. ")
 BASE = "cd /repo && /venv/bin/python -m pytest -ra -q -p no:cacheprovider --timeout=900 --continue-on-collection-errors"
 all_ids = [json.loads(l)["id"] for l in open(os.path.join(ROOT, "properties.jsonl"))]
